@@ -196,7 +196,7 @@ def judge(expected, obs, seg_with_header_end, nseg, status):
         return "headers complete, Deferred fired with %r instead of the response" % (res,)
     if res.code != status:
         return "response code %r, sent %r" % (res.code, status)
-    if fired_at != seg_with_header_end:
+    if seg_with_header_end is not None and fired_at != seg_with_header_end:
         return "headers complete in segment %d of %d, Deferred fired at %r" % (seg_with_header_end, nseg, fired_at)
     ev = consumer.events
     nlost = sum(1 for e in ev if e[0] == "lost")
@@ -421,7 +421,8 @@ class TruncatedResponses(Bounded):
              "16+1 bytes; optional junk / second response after the message; Connection: close; persistent or not; "
              "connection lost after every byte count 0..len; delivery: one segment, byte at a time, 4 seeded random "
              "segmentations, and for the 8 core responses every 2-way split (thorough: every 2-way split for all, "
-             "every 3-way split for core); deliverBody in the callback / after the segment / after the connection loss")
+             "every 3-way split for core); deliverBody in the callback / after the segment / two segments later / after "
+             "the connection loss (quick: all four for the core responses, one rotating timing for the others)")
     functions = ["HTTP11ClientProtocol.request", "HTTP11ClientProtocol.dataReceived",
                  "HTTP11ClientProtocol.connectionLost", "HTTP11ClientProtocol._finishResponse_WAITING",
                  "HTTP11ClientProtocol._disconnectParser", "HTTPClientParser.statusReceived",
@@ -434,7 +435,7 @@ class TruncatedResponses(Bounded):
         core = set(_core_specs())
         for idx, spec in enumerate(_wide_specs(tier)):
             n = len(build(spec)["wire"])
-            # quick: the core responses with all three deliverBody timings, the others with one (rotating)
+            # quick: the core responses with all four deliverBody timings, the others with one (rotating)
             policies = POLICIES if (tier != "quick" or spec in core) else (POLICIES[idx % len(POLICIES)],)
             for policy in policies:
                 for t in range(0, n + 1):
@@ -548,7 +549,7 @@ class H11Responses(Bounded):
              "responses (100, 103); Content-Length, chunked (h11's choice for 1.1) or close-delimited (h11's choice for "
              "1.0); Data events (), a, ab|c, CRLF|0CRLFCRLF, 20 bytes|LF; Connection: close or not; persistent or not; "
              "connection lost after every byte count 0..len; one segment, byte at a time, every 2-way split (quick: "
-             "2-way splits and all three timings for every seventh response, one rotating timing for the rest), 3 seeded random segmentations; three deliverBody timings")
+             "2-way splits and all four timings for every eleventh response, one rotating timing for the rest), 3 seeded random segmentations; four deliverBody timings")
     functions = TruncatedResponses.functions
 
     def _specs(self):
@@ -573,8 +574,8 @@ class H11Responses(Bounded):
     def cases(self, tier, rng):
         for n, spec in enumerate(self._specs()):
             wire, _ = h11_serialize(spec)
-            full = tier != "quick" or n % 7 == 0
-            # quick: every seventh response with all three deliverBody timings and all 2-way splits, the others
+            full = tier != "quick" or n % 11 == 0
+            # quick: every eleventh response with all four deliverBody timings and all 2-way splits, the others
             # with one timing (rotating)
             policies = list(enumerate(POLICIES)) if full else [(n // 3, POLICIES[n % len(POLICIES)])]
             for pi, policy in policies:
@@ -626,11 +627,11 @@ class RandomLarge(Bounded):
     title = "seeded random larger bodies / chunkings / segmentations, random truncation: same comparison as TruncatedResponses"
     scope = ("bodies of 0..3000 bytes over an alphabet biased to CR, LF, '0', ';' in 1..6 chunks; all framings and "
              "styles of TruncatedResponses; random truncation point (biased to the ends and chunk edges) and random "
-             "segmentation into 1..12 pieces; quick 1500 cases, thorough 20000; not exhaustive")
+             "segmentation into 1..12 pieces; quick 4000 cases, thorough 40000; not exhaustive")
     functions = TruncatedResponses.functions
 
     def cases(self, tier, rng):
-        for _ in range(1500 if tier == "quick" else 20000):
+        for _ in range(4000 if tier == "quick" else 40000):
             yield (rng.getrandbits(48),)
 
     def check(self, case):
@@ -667,4 +668,58 @@ class RandomLarge(Bounded):
         return None
 
 
-BOUNDED = [TruncatedResponses, H11Responses, RandomLarge]
+# ---------------------------------------------------------------------------------------------------------
+# the response arrives while the request body is still being written (protocol state machine)
+# ---------------------------------------------------------------------------------------------------------
+
+class RequestStillTransmitting(Bounded):
+    prop = "C23"
+    title = ("response arriving while the request body producer is still running: Deferred exactly once, consumer "
+             "exactly once with the exact body, for every point at which the producer finishes (or never)")
+    scope = ("the 8 core responses of TruncatedResponses; request with a chunked body producer that finishes before "
+             "segment k for every k, just before the connection loss, or never; every truncation point; one segment, "
+             "byte at a time (quick: bytewise only for every fourth truncation point), split in the middle; four "
+             "deliverBody timings.  "
+             "Oracle weaker than the statement where documented behaviour says so: if the connection is lost while "
+             "the request is still being written and the response is incomplete, a failure (documented "
+             "RequestTransmissionFailed) is accepted in place of the response; the time of firing is not checked")
+    functions = ["HTTP11ClientProtocol.request", "HTTP11ClientProtocol._finishResponse_TRANSMITTING",
+                 "HTTP11ClientProtocol._connectionLost_TRANSMITTING",
+                 "HTTP11ClientProtocol._connectionLost_TRANSMITTING_AFTER_RECEIVING_RESPONSE",
+                 "HTTP11ClientProtocol._connectionLost_WAITING", "HTTP11ClientProtocol._disconnectParser",
+                 "HTTPClientParser.allHeadersReceived", "HTTPClientParser.connectionLost", "Response.deliverBody"]
+
+    def cases(self, tier, rng):
+        for spec in _core_specs():
+            n = len(build(spec)["wire"])
+            for policy in POLICIES:
+                for t in range(0, n + 1):
+                    yield (spec, policy, t, tier != "quick" or t % 4 == 0)
+
+    def check(self, case):
+        spec, policy, t, bytewise = case
+        model = build(spec)
+        stream = model["wire"][:t]
+        want = expect(model, t)
+        clean = t == len(model["wire"])
+        segmentations = [[stream] if stream else []]
+        if t > 1:
+            segmentations.append(cut(stream, [t // 2]))
+        if bytewise and t > 2:
+            segmentations.append([stream[i:i + 1] for i in range(t)])
+        for segs in segmentations:
+            for fa in [-1] + list(range(0, len(segs) + 1)):
+                obs = run_client(spec[0], segs, policy, spec[8], clean, finish_at=fa)
+                fired, _, consumer, escaped = obs
+                w = want
+                if (fa == -1 and not escaped and len(fired) == 1 and isinstance(fired[0], Failure)
+                        and want[0] == "response" and want[2] != "done"):
+                    # connection lost while the request was still being written, response incomplete
+                    w = ("failure", None, None)
+                bad = judge(w, obs, None, len(segs), model["status"])
+                if bad:
+                    return "%s; stream %r cut %r producer finishes at %r" % (bad, stream, [len(s) for s in segs], fa)
+        return None
+
+
+BOUNDED = [TruncatedResponses, H11Responses, RandomLarge, RequestStillTransmitting]
